@@ -82,8 +82,12 @@ def k_json_bytes(case):
 
 def k_rep_chain(case):
     """report_repetition=True: below a list with repeated items the t2-side child relationship carries the
-    t1 index (child_relationship_param2=None), and every index of a repeated item gets the first item's object"""
-    return (case.get("clause") == "chain" and case.get("mode", "").startswith("ignore_order+repetition") and case.get("repeats_at_link") is True
+    t1 index (child_relationship_param2=None), and every index of a repeated item gets the first item's object.
+    `repeats_at_link` (chain_problems / link_feature): at EVERY failing link the node's hash - DeepHash under the parameters
+    and the shared table of the plain report_repetition run (run_hasher), NOT Python == - is repeated among the items of the
+    parent list on the side where the report_repetition branch reads it, and a repetition_change link carries the predicted
+    index (t1's first index of the hash).  The chain clause is evaluated, and the hashes are those, in the plain mode only."""
+    return (case.get("clause") == "chain" and case.get("mode") == "ignore_order+repetition" and case.get("repeats_at_link") is True
             and set(case.get("problem_tags", ["?"])) <= {"t2-sub", "t2-noitem", "t2-eq-not-is", "t1-eq-not-is"}
             # the finding's mechanism, as proved of the model (C10_io_repetition_backed): only the INDEX is wrong - the node
             # object is still an item of the parent container, and a wrong t2 link carries t1's parameter
@@ -350,9 +354,30 @@ def sibinj_py(v, h):
     return True
 
 
+def run_hasher():
+    """x -> the hash under which _create_hashtable files an item x in a plain DeepDiff(ignore_order=True,
+    report_repetition=True) run: DeepHash with that run's deephash_parameters (so: order ignored inside nested lists /
+    tuples as well, ignore_repetition=False = multiplicities count) and ONE `hashes` table shared by all calls, as the run's
+    self.hashes is.  The shared table is what makes hashable ==-aliases one entry (1 / 1.0, (1, 3) / (1.0, 3) / (True, 3),
+    frozensets of them; NOT 1 / True, which DeepHash keys apart) wherever they sit.  Which alias is met first decides the
+    VALUE of the common hash, never WHICH items have a common one, and only equality of the results is used here.
+    "Repeated item" in finding C10-repetition-t2-index means this relation - it is neither finer nor coarser than ==:
+    (1, 3) / (3, 1) and [1, [2, 3]] / [[3, 2], 1] are repeated without being ==, 1 / True and [1] / [True] are == without
+    being repeated.  The table is keyed by id() for unhashable objects: one hasher per pair of live inputs."""
+    from deepdiff import DeepDiff, DeepHash
+    params = DeepDiff([1], [2], ignore_order=True, report_repetition=True).deephash_parameters
+    table = {}
+
+    def h(x):
+        return DeepHash(x, hashes=table, apply_hash=True, **params)[x]
+    return h
+
+
 def rep_guards(a, b):
+    """aligned + sibinj (the guards of C10_io_repetition_chains_aligned, true for every hasher) under the hash relation of
+    the run itself (run_hasher: one shared table), which is what decides whether the code meets a repeated hash"""
     try:
-        h = item_hasher(a, b)
+        h = run_hasher()
         return bool(aligned_py(a, b, h) and sibinj_py(a, h))
     except Exception:
         return None
@@ -361,20 +386,58 @@ def rep_guards(a, b):
 # ---------------------------------------------------------------------------
 # direct oracle
 # ---------------------------------------------------------------------------
-def has_repeats(seq):
-    if not isinstance(seq, (list, tuple)):
-        return False
-    items = list(seq)
-    return any(items[i] == items[j] for i in range(len(items)) for j in range(i + 1, len(items)))
+def link_feature(h, cur, d, side, tag, param, leaf_kind):
+    """does ONE failing link cur -> d show the feature of finding C10-repetition-t2-index for the failure `tag` observed on
+    `side`, in the position where it acts in _diff_iterable_with_deephash (report_repetition branch)?  "Repeated" = equal
+    hashes (run_hasher), counted among the items of the parent list / tuple of the link:
+      t1-eq-not-is  every t1 index of a repeated hash is reported with the first item's object: the node's t1 hash occurs
+                    at >= 2 places of the parent's t1;
+      t2-eq-not-is  the same on the t2 side (an added item whose hash is repeated in t2);
+      t2-sub / t2-noitem (the t2 link carries t1's index):
+                    child_relationship_param2 is None because the node's t2 hash occurs at >= 2 places of the parent's t2, or
+                    the link is the last link of a repetition_change level: the hash is in both lists, a different number of
+                    times, and the index on the link is the one the finding predicts - t1's FIRST index of the hash.
+    Returns (bool, description of the positions for the replay file)."""
+    if not (isinstance(cur.t1, (list, tuple)) and isinstance(cur.t2, (list, tuple))):
+        return False, "parent is no list / tuple on both sides"
+    try:
+        h1, h2 = [h(x) for x in cur.t1], [h(y) for y in cur.t2]
+        c1 = None if is_np(d.t1) else h(d.t1)
+        c2 = None if is_np(d.t2) else h(d.t2)
+    except Exception as e:
+        return False, "hashing raised " + type(e).__name__
+    at1 = [i for i, q in enumerate(h1) if q == c1] if c1 is not None else []
+    at2 = [i for i, q in enumerate(h2) if q == c2] if c2 is not None else []
+    desc = "%s at %s[%r]: node t1 hash at t1 indexes %r, node t2 hash at t2 indexes %r" % (tag, cur.path(force="fake"), param, at1, at2)
+    if tag == "t1-eq-not-is":
+        return side == 1 and len(at1) >= 2, desc
+    if tag == "t2-eq-not-is":
+        return side == 2 and len(at2) >= 2, desc
+    if tag in ("t2-sub", "t2-noitem") and side == 2:
+        if len(at2) >= 2:
+            return True, desc
+        if leaf_kind == "repetition_change" and c1 is not None and c1 == c2:
+            return bool(at1 and at2 and len(at1) != len(at2) and param == at1[0]), desc + " (repetition_change: predicted index %r)" % (at1[:1],)
+    return False, desc
 
 
-def chain_problems(lv, a, b):
-    """walk one level chain; returns ([(tag, text)], info): info["repeats"] = a container at a failing link holds
-    repeated (==) items; info["backed"] = at every failing link the node object still IS (identity) an item of the
+def chain_problems(lv, a, b, kind=None):
+    """walk one level chain; returns ([(tag, text)], info): info["repeats"] = EVERY failing index / identity link shows the
+    feature of finding C10-repetition-t2-index (link_feature: the node's hash - DeepHash under the run's parameters, not
+    Python == - is repeated among the items of the parent list where the code's report_repetition branch reads it);
+    info["backed"] = at every failing link the node object still IS (identity) an item of the
     parent container (what C10_io_repetition_backed proves of the model: only the index may be wrong);
     info["t2_param_is_t1_param"] = at every failing t2 link the t2 relationship is missing or carries t1's parameter"""
     bad = []
-    info = {"repeats": False, "backed": True, "t2_param_is_t1_param": True}
+    info = {"repeats": None, "backed": True, "t2_param_is_t1_param": True, "links": []}
+    hasher = []
+
+    def feature(cur, d, side, tag, param):
+        if not hasher:
+            hasher.append(run_hasher())
+        ok, desc = link_feature(hasher[0], cur, d, side, tag, param, kind if d is lv else None)
+        info["repeats"] = ok if info["repeats"] is None else (info["repeats"] and ok)
+        info["links"].append(desc)
     root = lv.all_up
     if root.t1 is not a or root.t2 is not b:
         bad.append(("root", "walking up does not reach a root holding the original t1 and t2"))
@@ -399,7 +462,6 @@ def chain_problems(lv, a, b):
         r1, r2 = cur.t1_child_rel, cur.t2_child_rel
         if r1 is None and r2 is None:
             bad.append(("rel", "a link without child relationship"))
-        n0 = len(bad)
         for side, rel, other, parent, child in ((1, r1, r2, cur.t1, d.t1), (2, r2, r1, cur.t2, d.t2)):
             if is_np(child):
                 if rel is not None:
@@ -428,6 +490,7 @@ def chain_problems(lv, a, b):
                             failed = ("t%d-sub" % side, "t%d: node object is not parent[%r]" % (side, use.param))
                 if failed:
                     bad.append(failed)
+                    feature(cur, d, side, failed[0], use.param)
                     if not any(m is child for m in members):
                         info["backed"] = False
                         bad.append(("unbacked", "t%d: node object is no item of the parent container at all" % side))
@@ -437,10 +500,9 @@ def chain_problems(lv, a, b):
                 if not any(m is child for m in parent):
                     bad.append(("t%d-sub" % side, "t%d: node object is not a member of the parent set" % side))
                     info["backed"] = False
+                    info["repeats"] = False        # no list link: not the finding's mechanism
             else:
                 bad.append(("rel", "t%d: parent of a link is not a container" % side))
-        if len(bad) > n0 and (has_repeats(cur.t1) or has_repeats(cur.t2)):
-            info["repeats"] = True
         cur = d
     if cur is not lv:
         bad.append(("updown", "the reported level is not the leaf of its chain"))
@@ -457,6 +519,7 @@ def chain_problems(lv, a, b):
         got = lv.path(output_format="list", use_t2=use_t2)
         if len(got) != len(want) or any(not (g is w or same(g, w)) for g, w in zip(got, want)):
             bad.append(("path", "path(output_format='list', use_t2=%r) is %r, the links say %r" % (use_t2, got, want)))
+    info["repeats"] = info["repeats"] is True
     return bad, info
 
 
@@ -636,11 +699,12 @@ def check_mode(ctx, a, b, mode, kw, cfg):
         #      so the identity clauses are stated for the plain modes only ----
         for which, tree in ((("tree-view", dr), ("text-view .tree", dt.tree)) if cfg.get("chains", True) else ()):
             for kind, lv in tree_levels(tree):
-                pb, info = chain_problems(lv, a, b)
+                pb, info = chain_problems(lv, a, b, kind)
                 if pb:
                     guard = rep_guards(a, b) if (kw.get("report_repetition") and set(kw) <= {"ignore_order", "report_repetition"}) else None
                     bad("chain", "%s %s %s: %s" % (which, kind, lv.path(force="fake"), "; ".join(t for _g, t in pb[:3])), report_type=kind,
                         problems=[t for _g, t in pb[:4]], problem_tags=sorted({g for g, _t in pb}), repeats_at_link=info["repeats"],
+                        failing_links=info["links"][:4],
                         backed=info["backed"], t2_param_is_t1_param=info["t2_param_is_t1_param"], aligned_and_sibinj=guard, **cfgv)
                     break
         # ---- tree vs text ----
